@@ -3796,8 +3796,7 @@ class Group(System):
                 raise RuntimeError("No response variables were passed to compute_totals and "
                                    "the driver is not providing any.")
         else:
-            of_src_names = [m['source'] for n, m in driver._responses.items()
-                            if n in driver_ordered_nl_resp_names]
+            of_src_names = [driver._responses[n]['source'] for n in driver_ordered_nl_resp_names]
             of = list(of)
             if of != driver_ordered_nl_resp_names and of != of_src_names:
                 has_custom_derivs = True
@@ -3881,8 +3880,7 @@ class Group(System):
                 raise RuntimeError("No response variables were passed to compute_totals and "
                                    "the driver is not providing any.")
         else:
-            of_src_names = [m['source'] for n, m in driver._responses.items()
-                            if n in driver_ordered_nl_resp_names]
+            of_src_names = [driver._responses[n]['source'] for n in driver_ordered_nl_resp_names]
             of = list(of)
             if of != driver_ordered_nl_resp_names and of != of_src_names:
                 has_custom_derivs = True
